@@ -42,6 +42,8 @@ func C04(r *core.Report) {
 	c04ReaderCapsCoverWriter(r)
 	c04EntryCodecRoundTrip(r)
 	c04CollisionDetectionExact(r)
+	c04ValueOnlyOnHashMatch(r)
+	r.Floor("C04.R9", 3)
 	r.Floor("C04.R8", 3)
 	r.Floor("C04.R7", 9)
 	r.Floor("C04.R6", 2)
@@ -369,18 +371,8 @@ func c04Layout(r *core.Report) {
 		if vo == nil {
 			vo = ins.ParamObj(1)
 		}
-		ok := false
-		for _, rn := range g.Returns() {
-			if definitelyErrorReturn(g, ins, rn) {
-				continue
-			}
-			for _, fc := range g.FactsAt(rn) {
-				s := core.ExprStr(fc.Expr)
-				if vo != nil && strings.Contains(s, "len("+vo.Name()+")") && (strings.Contains(s, "ValueSize") || strings.Contains(s, "getValueSize")) {
-					ok = true
-				}
-			}
-		}
+		_ = g
+		ok := vo != nil && invariantHolds(p, ins, []string{"len(" + vo.Name() + ")", "getValueSize()"}, 0) == ""
 		_ = info
 		r.Check(ok, rule, "compactindexsized#insert-checks-value-length", posP(r, ins.Pos()), "Insert rejects a value that does not fit the declared value size",
 			"Insert does not compare the value's length with the declared value size: a longer value is silently truncated in the spill file, so lookups return a different value than was inserted")
@@ -1061,4 +1053,133 @@ func adjacencyBase(info *types.Info, e ast.Expr) types.Object {
 		return nil
 	}
 	return core.ObjOf(info, ix.X)
+}
+
+// c04ValueOnlyOnHashMatch (C04.R9): a bucket lookup hands out a stored value only for an entry whose stored hash equals
+// the hash of the requested key - that comparison is the only thing that ties a value to a key inside a bucket. Starting
+// at (*Bucket).Lookup and following `return helper(..., target, ...)` delegations, every success return that yields an
+// entry's Value is dominated by an equality between that entry's Hash and the value derived from Hash(key).
+func c04ValueOnlyOnHashMatch(r *core.Report) { valueOnlyOnHashMatch(r, "C04.R9") }
+
+func valueOnlyOnHashMatch(r *core.Report, rule string) {
+	p := r.Prog
+	for _, pk := range c04Pkgs {
+		f := r.Anchor(rule, pk+".(*Bucket).Lookup")
+		if f == nil {
+			continue
+		}
+		var check func(fn *core.Func, target map[types.Object]bool, depth int) string
+		check = func(fn *core.Func, target map[types.Object]bool, depth int) string {
+			if depth > 4 {
+				return "delegation too deep"
+			}
+			info := fn.Pkg.TypesInfo
+			g := p.Graph(fn)
+			// locals derived from the target (copies)
+			for _, n := range stmtNodes(g) {
+				if as, ok := n.Ast.(*ast.AssignStmt); ok && len(as.Lhs) == len(as.Rhs) {
+					for i := range as.Lhs {
+						if target[core.ObjOf(info, as.Rhs[i])] {
+							if o := core.ObjOf(info, as.Lhs[i]); o != nil {
+								target[o] = true
+							}
+						}
+					}
+				}
+			}
+			// target := b.Hash(key)
+			ast.Inspect(fn.Body, func(n ast.Node) bool {
+				as, ok := n.(*ast.AssignStmt)
+				if !ok || len(as.Lhs) != 1 || len(as.Rhs) != 1 {
+					return true
+				}
+				if c, ok := core.Unparen(as.Rhs[0]).(*ast.CallExpr); ok && strings.HasSuffix(core.CalleeName(info, c), "BucketHeader).Hash") {
+					if o := core.ObjOf(info, as.Lhs[0]); o != nil {
+						target[o] = true
+					}
+				}
+				return true
+			})
+			isTargetExpr := func(e ast.Expr) bool {
+				e = core.Unparen(e)
+				if target[core.ObjOf(info, e)] {
+					return true
+				}
+				if c, ok := e.(*ast.CallExpr); ok && strings.HasSuffix(core.CalleeName(info, c), "BucketHeader).Hash") {
+					return true
+				}
+				return false
+			}
+			for _, rn := range g.Returns() {
+				if definitelyErrorReturn(g, fn, rn) {
+					continue
+				}
+				res := returnResults(rn)
+				if len(res) == 0 {
+					continue
+				}
+				// delegation
+				if c, ok := core.Unparen(res[0]).(*ast.CallExpr); ok && len(res) == 1 {
+					fnObj := core.Callee(info, c)
+					var callee *core.Func
+					if fnObj != nil {
+						callee = p.ByObj[fnObj.Origin()]
+					}
+					if callee == nil {
+						return "delegates to an unresolved function at " + p.Rel(rn.Ast.Pos())
+					}
+					sub := map[types.Object]bool{}
+					for ai, a := range c.Args {
+						if isTargetExpr(a) {
+							if po := callee.ParamObj(ai); po != nil {
+								sub[po] = true
+							}
+						}
+					}
+					if len(sub) == 0 {
+						return "delegates to " + callee.Key + " at " + p.Rel(rn.Ast.Pos()) + " without passing the hash of the key"
+					}
+					if why := check(callee, sub, depth+1); why != "" {
+						return why
+					}
+					continue
+				}
+				// direct: returns X.Value
+				sel, ok := core.Unparen(res[0]).(*ast.SelectorExpr)
+				if !ok || sel.Sel.Name != "Value" {
+					if id, isId := core.Unparen(res[0]).(*ast.Ident); isId && id.Name == "nil" {
+						continue
+					}
+					if _, isC := core.ConstInt(info, res[0]); isC {
+						continue
+					}
+					if cl, isCL := core.Unparen(res[0]).(*ast.CompositeLit); isCL && len(cl.Elts) == 0 {
+						continue
+					}
+					return "returns " + core.ExprStr(res[0]) + " at " + p.Rel(rn.Ast.Pos()) + ", not recognised as an entry's value"
+				}
+				eo := core.ObjOf(info, sel.X)
+				okCmp := false
+				for _, fc := range g.FactsAt(rn) {
+					be, isB := core.Unparen(fc.Expr).(*ast.BinaryExpr)
+					if !isB || fc.Tag != nil || !((be.Op == token.EQL && fc.Truth) || (be.Op == token.NEQ && !fc.Truth)) {
+						continue
+					}
+					for _, pair := range [][2]ast.Expr{{be.X, be.Y}, {be.Y, be.X}} {
+						hs, isS := core.Unparen(pair[0]).(*ast.SelectorExpr)
+						if isS && hs.Sel.Name == "Hash" && core.ObjOf(info, hs.X) == eo && eo != nil && isTargetExpr(pair[1]) && g.FactFresh(fc, rn) {
+							okCmp = true
+						}
+					}
+				}
+				if !okCmp {
+					return fn.Key + " returns " + core.ExprStr(res[0]) + " at " + p.Rel(rn.Ast.Pos()) + " without having compared that entry's stored hash with the hash of the requested key"
+				}
+			}
+			return ""
+		}
+		why := check(f, map[types.Object]bool{}, 0)
+		r.Check(why == "", rule, pk+".(*Bucket).Lookup#value-only-on-hash-match", posP(r, f.Pos()), "a value is returned only for an entry whose stored hash equals the hash of the requested key",
+			why+": an absent key that lands in the bucket is answered with another key's value instead of not-found")
+	}
 }
